@@ -92,3 +92,35 @@ func TestVerifFindingReadKeyIgnoresBufferedKeys(t *testing.T) {
 		t.Errorf("\"dfx\" typed as three reads gives %q, pasted as one read gives %q", split, joined)
 	}
 }
+
+// ---------------------------------------------------------------------------------------------------
+// C01: panics reachable from the keyboard, found by the command sweep (nopanic obligations that did not
+// discharge), each repaired by a fix: commit.  The tests drive the real dispatcher and commands.
+
+func sessionPanics(vi bool, keys ...string) (panicked interface{}) {
+	defer func() { panicked = recover() }()
+	s := newSession(vi)
+	s.keys(keys...)
+	return nil
+}
+
+func TestVerifFindingC01KeyboardPanics(t *testing.T) {
+	cases := []struct {
+		name string
+		vi   bool
+		keys []string
+	}{
+		{"vi-forward-char with a count past the end (9l)", true, []string{"ab", "\x1b", "0", "9l"}},
+		{"vi-forward-char 3l on 'ab cd' at 2", true, []string{"ab cd", "\x1b", "0", "l", "l", "3l"}},
+		{"vi-backward-char with a count past the start (3h)", true, []string{"ab", "\x1b", "3h"}},
+		{"vi-yank-whole-line on an empty buffer (Y)", true, []string{"\x1b", "Y"}},
+		{"vi-yank-to doubled on an empty buffer (yy)", true, []string{"\x1b", "yy"}},
+		{"transpose-words on an empty buffer (M-t)", false, []string{"\x1bt"}},
+		{"vi-match on an unmatched closer (%)", true, []string{"aaa)", "\x1b", "0", "%"}},
+	}
+	for _, c := range cases {
+		if p := sessionPanics(c.vi, c.keys...); p != nil {
+			t.Errorf("%s: keys %q panic: %v", c.name, c.keys, p)
+		}
+	}
+}
